@@ -45,6 +45,8 @@ CARRIES_POSITIONS = {"vasp"}
 # interfaces whose writer/reader pair can be exercised offline (cp2k needs cp2k-input-tools; crystal's reader parses
 # CRYSTAL *output*, not the input its writer produces).  wien2k: structure files only (P lattice, every atom its own
 # site); its symmetry-reduced force format has no peer.
+# structure formats whose writer and reader both carry (collinear) magnetic moments per atom
+MAGMOMS_IN_STRUCTURE_FILE = ["abacus", "aims", "castep"]  # pwmat: the writer prints a "magnetic" section, the reader does not read it (moments come from the MAGMOM tag)
 # calculators whose force-output reader is exercised without their structure files: the peer takes the displaced positions from
 # phonopy's own objects (cp2k: structure reader needs cp2k-input-tools; crystal: reader parses CRYSTAL output, not the written input;
 # fleur: written files cannot be read back, a recorded finding - the reader of its FORCES file is still exercised)
